@@ -59,11 +59,14 @@ def _c24_exe(parts, as_list):
     return None
 
 def _c24_class(argv):
-    """argv elements the space-only quoting cannot render"""
-    for a in argv:
-        if a == "" or any((c.isspace() and c != " ") or c == "'" or c == '"' or c == chr(92) for c in a):
-            return True
-    return False
+    """the recorded finding, exactly: argv for which quoting *only* arguments that contain a space (in single quotes) cannot give a
+    line that POSIX-splits back into argv (empty arguments, quotes, backslashes, other white space - unless they happen to survive, as
+    '"a b"' does inside the added single quotes).  Everything the space-only scheme does render correctly stays under check."""
+    ref = " ".join(("'" + a + "'") if " " in a else a for a in argv)
+    try:
+        return shlex.split(ref) != list(argv)
+    except ValueError:
+        return True
 '''
 
 
@@ -89,17 +92,37 @@ def build(tier, seed, exclude):
         g.cond(f"h_{f}", "s: str", pre, body, timeout=to)
     # append_args go to the argv unparsed, so every character class reaches cmdline
     pre = [f"1 <= len(s) <= {n}"]
-    if known:
-        pre.append("not _c24_class([s])")
-    g.cond("h_append_args", "s: str", pre, """
+    g.cond("h_append_args", "s: str", pre, f"""
         err = _c24("plain", "v", extra=s)
+        if err and {known} and _c24_class([s]):
+            return True          # recorded finding C24-space-only-quoting
         return T.fail(err) if err else True
     """, timeout=to)
+    # partition of the same space: arguments that mix a blank with quote characters (the region where the added single quotes and the
+    # argument's own quotes interact; without the partition the 25 s search rarely reaches it)
+    qpre = [f"2 <= len(s) <= {n + 1}", "' ' in s", "s[0] == chr(34) or s[0] == chr(39) or s[-1] == chr(34) or s[-1] == chr(39)"]
+    g.cond("h_append_args_blank_and_quote", "s: str", qpre, f"""
+        err = _c24("plain", "v", extra=s)
+        if err and {known} and _c24_class([s]):
+            return True          # recorded finding C24-space-only-quoting
+        return T.fail(err) if err else True
+    """, timeout=to)
+    # the same space over a small alphabet of the characters quoting is about: the solver picks indices, the argument is built from them
+    g.cond("h_append_args_pool", "i0: int, i1: int, i2: int", ["0 <= i0 < 4 and 0 <= i1 < 5 and 0 <= i2 < 5"], f"""
+        pool = [chr(34), " ", chr(39), "a", ""]
+        s = pool[T.real(i0)] + pool[T.real(i1)] + pool[T.real(i2)]
+        err = _c24("plain", "v", extra=s)
+        if err and {known} and _c24_class([s]):
+            return True          # recorded finding C24-space-only-quoting
+        return T.fail(err) if err else True
+    """, timeout=to * 5)
     # the executable: a single string, and the parts of a multi-part command given as a list
     for nm, call, argv in (("h_executable_str", "_c24_exe([s], False)", "[s]"), ("h_executable_list_first", "_c24_exe([s, 'run'], True)", "[s]"),
                            ("h_executable_list_second", "_c24_exe(['prog', s], True)", "[s]")):
         g.cond(nm, "s: str", pre, f"""
             err = {call}
+            if err and {known} and _c24_class([s]):
+                return True          # recorded finding C24-space-only-quoting
             return T.fail(err) if err else True
         """, timeout=to)
     g.cond("twin_c24", "s: str", ["1 <= len(s) <= 2"], """
@@ -110,4 +133,4 @@ def build(tier, seed, exclude):
         err = _c24("plain", "v", extra="it's")
         return T.fail(err) if err else True
     """)
-    return g.spec(bounds={"string length": f"1-{n}", "alphabet": "all of Unicode", "field kinds": C23.FIELDS + ["append_args", "executable (string / list parts)"]})
+    return g.spec(bounds={"string length": f"1-{n}", "alphabet": "all of Unicode", "field kinds": C23.FIELDS + ["append_args", "executable (string / list parts)"], "append_args alphabet conditions": "blank+quote partition (length <= n+1); index pool {double quote, blank, single quote, a, nothing}^3 (100 arguments)"})
